@@ -502,6 +502,29 @@ fn report(rep: &mut Report, ast: &RuleAst, text: &str, doc: &DVal, sw: Sw, cfg: 
             }
         }
     }
+    // the negated-structure finding has an envelope model: shake reorders / regroups the
+    // operands of conjunctions, so under the negation the non-true result may be that of ANY
+    // operand instead of the first; the optimised verdict must be one the rule language allows
+    // for some ordering of its conjunctions (set-valued reference interpreter, order-free mode)
+    if trig.len() == 1 && trig.contains("negated-structure") && !msw.matrix() {
+        let free = crate::refi::Ref { icase_build: false, order_free: true }.eval_rule(&sr, &sd);
+        let got: Option<bool> = sr.to_text().and_then(|t| eng::load_ok(&t)).and_then(|r| eng::optimise(&r, msw).ok()).and_then(|o| eng::matches(&o, &to_yaml_map(&sd)).ok());
+        rep.count("negstruct_model_checks");
+        match (crate::refi::verdict(free), got) {
+            (Some(w), Some(g)) if w != g => {
+                rep.violation(
+                    "verdict-differs",
+                    &format!("c01:S1-negstruct-model:{}", tagk),
+                    &format!("{} with switches [{}]: the rule's only trigger is a negated structure, but the optimised verdict {} is not one that any ordering of the rule's conjunctions gives (envelope {})", what, msw.name(), g, crate::refi::ts_name(free)),
+                    mk_case(json!("S1-negstruct-model")),
+                );
+                return;
+            }
+            // (a definite envelope that agrees cannot occur here: the unoptimised verdict lies
+            // inside the envelope and differs from the optimised one)
+            _ => {}
+        }
+    }
     let pri = ["double-negation", "condition-quantifier", "negated-structure"];
     let which = pri.iter().find(|p| trig.contains(**p)).unwrap();
     rep.count(&format!("S1_attributed.{}", which));
